@@ -226,6 +226,67 @@ def case_edit(g, rng, tier):
     c["reinit"] = (op not in SELF_REINIT) or rng.random() < 0.5
     return {"sx": sx(c), "meta": {"kind": "edit", "op": op, "reinit": c["reinit"]}}
 
+def case_edit_removetips(g, rng, tier):
+    """RemoveTips around the root and on whole clades:
+    (i)   unrooted, root with exactly 3 neighbours of which two are tips, one root tip removed, the remaining root
+          neighbours in both orders (tip first / clade first);
+    (ii)  rooted trees, removal of tips attached to the root (and of a whole root child);
+    (iii) whole clades and cherries anywhere."""
+    n = rng.randint(5, 16)
+    names = tricky_names(rng, n)
+    mode = rng.choice(["root3", "root3", "rooted", "rooted", "clade", "cherry"])
+    maxdeg = rng.choice([2, 3, 4])
+    def sub(ns):
+        return g.shape(ns, maxdeg=maxdeg) if len(ns) > 1 else ns[0]
+    if mode == "root3":
+        a, b, rest = names[0], names[1], names[2:]
+        kids3 = [a, b, sub(rest)]
+        order = rng.choice([[0, 1, 2], [0, 2, 1], [2, 0, 1], [1, 0, 2], [1, 2, 0], [2, 1, 0]])
+        shape = [kids3[i] for i in order]
+        remove = [rng.choice([a, b])]
+        if rng.random() < 0.1:
+            remove = [a, b]
+    elif mode == "rooted":
+        a, rest = names[0], names[1:]
+        r = rng.random()
+        if r < 0.6:
+            shape = [a, sub(rest)] if rng.random() < 0.5 else [sub(rest), a]
+            remove = [a] if rng.random() < 0.7 else [rng.choice(rest)]
+        else:
+            k = rng.randint(2, n - 2)
+            left, right = names[:k], names[k:]
+            shape = [sub(left), sub(right)]
+            remove = list(left) if rng.random() < 0.5 else [rng.choice(names)]
+    else:
+        rootdeg = rng.choice([2, 3, 3, 4])
+        shape = g.shape(names, maxdeg=maxdeg, rootdeg=min(rootdeg, n))
+        def leafset(sh):
+            return [sh] if not isinstance(sh, list) else [x for c in sh for x in leafset(c)]
+        inner = []
+        def walk(sh, top):
+            if isinstance(sh, list):
+                if not top:
+                    inner.append(sh)
+                for c in sh:
+                    walk(c, False)
+        walk(shape, True)
+        if mode == "cherry":
+            ch = [x for x in inner if all(not isinstance(c, list) for c in x)]
+            inner = ch or inner
+        if inner:
+            remove = leafset(rng.choice(inner))
+        else:
+            remove = [rng.choice(names)]
+        if len(remove) > n - 2:
+            remove = remove[:1]
+    t = g.decorate(shape, lenmode=rng.choice(["all", "mixed"]), supmode="mixed", up_random=rng.random() < 0.5)
+    revert = False
+    if rng.random() < 0.1 and len(remove) >= 3:
+        revert = True             # keep only the clade
+    c = {"kind": Sym("edit"), "tree": T(t), "op": Sym("removetips"), "seed": 1, "revert": revert,
+         "names": list(remove), "reinit": rng.random() < 0.5}
+    return {"sx": sx(c), "meta": {"kind": "edit", "op": "removetips:" + mode, "reinit": c["reinit"]}}
+
 def load_factor(rng):
     r = rng.random()
     if r < 0.25:
@@ -348,7 +409,9 @@ def gen(rng, tier):
     counts = {"quick":    {"index": 130, "edit": 120, "samebip": 60, "edgeindex": 90, "hashmap": 90, "qmap": 25, "quartet": 12},
               "thorough": {"index": 2500, "edit": 2500, "samebip": 900, "edgeindex": 1500, "hashmap": 1500, "qmap": 300, "quartet": 150},
               "search":   {"index": 100, "edit": 100, "samebip": 50, "edgeindex": 80, "hashmap": 80, "qmap": 20, "quartet": 10}}[tier]
-    makers = {"index": case_index, "edit": case_edit, "samebip": case_samebip, "edgeindex": case_edgeindex, "hashmap": case_hashmap,
+    def edit_any(g, rng, tier):
+        return case_edit_removetips(g, rng, tier) if rng.random() < 0.3 else case_edit(g, rng, tier)
+    makers = {"index": case_index, "edit": edit_any, "samebip": case_samebip, "edgeindex": case_edgeindex, "hashmap": case_hashmap,
               "qmap": case_qmap, "quartet": case_quartet}
     out = []
     # the smallest quartet pairs first: taxa {0,1,2,3} against itself
